@@ -626,49 +626,68 @@ def part_a(ctx: Ctx) -> bool:
 # --------------------------------------------------------------------------
 # part T: the table-like core re-translated from the source on every run (harness/translate.py)
 # --------------------------------------------------------------------------
-TRANSLATOR_TIE = {"C05": ["tensor", "state_idx", "generate_transition", "comp_trans_prob", "transition_prob"],
-                  "C14": ["tensor", "state_idx", "generate_transition"],
-                  "C06": ["confusion", "observation", "row_wise_kron", "comp_obs_prob"],
+TRANSLATOR_TIE = {"C01": ["hmm_likelihood", "add_or_mult", "state_dist_evo"],
                   "C02": ["element", "compute_encoding", "tile_and_repeat"],
-                  "C08": ["compute_encoding", "tile_and_repeat"],
-                  "C07": ["comp_bayes_net_prob"]}
-# advisory pieces: loop nests that a maintainer may well rewrite without changing behaviour (one of the stored harmless
-# refactorings does).  Their obligation is generated, checked and recorded on every run, but when it breaks the
+                  "C03": ["fast_trace"],
+                  "C04": ["evolve_midext"],
+                  "C05": ["tensor", "state_idx", "generate_transition", "comp_trans_prob", "transition_prob"],
+                  "C06": ["confusion", "observation", "row_wise_kron", "comp_obs_prob"],
+                  "C07": ["comp_bayes_net_prob", "evolve", "state_dist_evo", "state_dist", "obs_dist"],
+                  "C08": ["compute_encoding", "tile_and_repeat", "generate_data_encoding", "early_late_mapping"],
+                  "C10": ["popfirst", "unflatten_and_split", "edge_get_params", "edge_set_params", "set_params_for", "flatten",
+                          "get_params_from"],
+                  "C11": ["edge_set_params", "set_params_for"],
+                  "C12": ["popfirst", "edge_set_params"],
+                  "C13": ["bn_likelihood", "hmm_likelihood"],
+                  "C14": ["tensor", "state_idx", "generate_transition", "evolve", "state_dist_evo"],
+                  "C17": ["unflatten_and_split", "set_params_for"]}
+# advisory pieces: functions that the stored behaviour-preserving refactorings rewrite (tools/translator_vs_patches.sh over
+# seeded/refactor-*).  Their obligation is generated, checked and recorded on every run, but when it breaks the
 # correspondence alone decides (no violation is raised for the broken obligation itself).
-ADVISORY_PIECES = {"observation", "generate_transition"}
+ADVISORY_PIECES = {"observation", "generate_transition", "bn_likelihood", "hmm_likelihood", "fast_trace", "generate_data_encoding",
+                   "unflatten_and_split", "set_params_for", "flatten", "get_params_from", "edge_get_params", "edge_set_params"}
 
 
 def translator_tie(ctx: "Ctx") -> None:
     """Regenerate Gallina definitions from the current Python source and have Coq prove them equal to the model for all
     arguments.  A broken obligation (untranslatable source, or the equality no longer provable) is reported as a
     violation ending in no-failing-input-found unless the correspondence of this run already produced a failing input."""
-    from . import translate, translate2
+    from . import translate, translate2, translate3, translate4, translate5
+    modules = [translate, translate2, translate3, translate4, translate5]
     pieces = TRANSLATOR_TIE.get(ctx.pid, [])
     if not pieces:
         return
-    results = []
     ctx.work.mkdir(parents=True, exist_ok=True)
-    for piece in pieces:
-        mod = translate if piece in translate.PIECES else translate2
+
+    def one(piece):
+        mod = next(m for m in modules if piece in m.PIECES)
         _, lemma, where = mod.PIECES[piece]
-        rec = {"piece": piece, "source": where, "lemma": lemma, "ok": False, "advisory": piece in ADVISORY_PIECES}
+        rec = {"piece": piece, "source": where, "lemma": lemma if isinstance(lemma, str) else list(lemma), "ok": False,
+               "advisory": piece in ADVISORY_PIECES}
         try:
             text = mod.generate(piece)
-        except translate.Untranslatable as e:  # translate2 raises the same class
+        except translate.Untranslatable as e:  # every translate module raises this class
             rec["reason"] = f"source not in the translatable fragment: {e}"
         except (SyntaxError, OSError) as e:
             rec["reason"] = f"source unreadable: {e!r}"
+        except Exception as e:  # noqa: BLE001  (fail-closed: a source shape the translator trips over is not translatable)
+            rec["reason"] = f"source not in the translatable fragment (translator error {type(e).__name__}: {str(e)[:200]})"
         else:
             f = ctx.work / f"Gen_{piece}.v"
             f.write_text(text)
             r = subprocess.run(["timeout", "300", "coqc", "-Q", str(COQ / "theories"), "LymphModel", "-R", str(ctx.work), "", str(f)],
                                cwd=ctx.work, capture_output=True, text=True)
             out = r.stdout + r.stderr
-            rec["ok"] = r.returncode == 0 and "Closed under the global context" in out
+            asked = text.count("Print Assumptions")
+            rec["ok"] = (r.returncode == 0 and asked >= 1 and out.count("Closed under the global context") == asked
+                         and "Axioms:" not in out)
             if not rec["ok"]:
                 rec["reason"] = "Coq rejects the equality with the model: " + out[-600:]
                 rec["generated"] = text[-1500:]
-        results.append(rec)
+        return rec
+    from concurrent.futures import ThreadPoolExecutor
+    with ThreadPoolExecutor(max_workers=8) as ex:
+        results = list(ex.map(one, pieces))
     ctx.extra["translator_tie"] = results
     broken = [r for r in results if not r["ok"] and not r["advisory"]]
     if broken and not any(v["found_input"] for v in ctx.violations):
